@@ -61,7 +61,11 @@ PrevLineBreakRemover(t, p) ==
   LET lb == Then(FindPrev(t, p, TRUE), LAMBDA x : FindPrev(t, x, TRUE)) IN
   IF lb # -1 THEN <<lb + 1, p>> ELSE <<p, p>>
 
+LineStartBlank(t, p) ==           \* nothing but blanks between the previous line break (or the start) and offset p
+  LET q == FindPrev(t, p, TRUE) IN q # -1 \/ \A i \in 1..p : IsBlank(t[i])
+
 NextLineBreakRemover(t, p) ==
+  IF ~LineStartBlank(t, p) THEN <<p, p>> ELSE
   LET lb == Then(FindNext(t, p, TRUE), LAMBDA x : FindNext(t, x + 1, TRUE)) IN
   IF lb # -1 THEN <<p, lb>> ELSE <<p, p>>
 
